@@ -261,7 +261,7 @@ FAULTS = {
 }
 
 
-def exchange(sx, driver, kind, fault, nmax=6, plen=3, csbits=12, timeout=None):
+def exchange(sx, driver, kind, fault, nmax=6, plen=3, csbits=12, timeout=None, both=False):
     crcref.install_summary(sx)
     dev, link = make_device(sx, driver)
     clf = make_frontend(dev)
@@ -282,7 +282,10 @@ def exchange(sx, driver, kind, fault, nmax=6, plen=3, csbits=12, timeout=None):
             # lookup that enumerates it): garble the 10 bytes before it only
             arg = 10
         f = Fault(at, fk, ERRNOS[arg] if fk in 'war' else arg)
-    sc = Script(sx, driver, kind, symbolic=(f is None), plen=plen)
+    # both=True: symbolic chip status AND one host-link fault at a later
+    # command (two-step histories: error status, then a fault in whatever the
+    # driver does about it); only the escape/None/lock obligations apply then
+    sc = Script(sx, driver, kind, symbolic=(f is None or both), plen=plen)
     sc.csbits = csbits
     link.begin(chip=sc.rcs if MODEL[driver] == 'rcs380' else sc.pn, fault=f)
     tag = "%s:%s:%s" % ("initiator" if kind in INITIATOR else "target",
@@ -602,6 +605,14 @@ def partitions(tier):
                     parts.append(dict(name="%s:%s:var%d" % (d, k, i), fn="exchange",
                                       params=dict(driver=d, kind=k, fault='none',
                                                   nmax=6, plen=pl, timeout=tmo)))
+    # chip error status combined with a host-link fault at a later command
+    for d, k in (('pn532', 'tt2'), ('rcs956', 'tt2')) + (
+            (('pn533', 'tt2'), ('rcs380', 'tt2'), ('pn531', 'tt2'), ('acr122', 'tt2')) if not q else ()):
+        if k not in kinds_for(d, tier):
+            continue
+        parts.append(dict(name="%s:%s:status+frame" % (d, k), fn="exchange",
+                          params=dict(driver=d, kind=k, fault='frame', nmax=8, plen=3,
+                                      csbits=9 if q else 12, both=True)))
     for role in ('initiator', 'target'):
         parts.append(dict(name="udp:" + role, fn="udp_exchange", params=dict(role=role)))
     return parts
